@@ -90,6 +90,37 @@ CodeOut(alts, wrong) ==
            W == Winners({rs[i] : i \in 1..Len(fl)})
        IN Res(Shown(rs[First(rs, LAMBDA r : r \in W)], wrong))
 
+(* ---- host graders and option contexts.  The allowed outcome of a listing is the same in every item grader and
+   under every option of that grader: AllowedOut takes no host argument.  Hosts differ only in which comparison
+   outcomes they can produce at all -- a text comparison knows no partial credit, an all-or-nothing list
+   (partial_credit = False) awards no fraction, a list of n items awards multiples of 1/n, a host that suppresses
+   matrix errors still lets library errors of a comparer through.  The binding replays every listing in every host
+   that can realise it.  (Names are the adapter's rendering contexts.) *)
+AllKinds == {"miss", "hit", "part", "lib", "foreign"}
+NoPart == {"miss", "hit", "lib"}
+HostKinds == [table |-> AllKinds,
+              string |-> NoPart, string_exact |-> NoPart,
+              formula |-> AllKinds, formula_tol |-> AllKinds,
+              numerical |-> AllKinds, numerical_tol |-> AllKinds,
+              matrix |-> AllKinds, matrix_suppress |-> AllKinds,
+              singlelist |-> NoPart \cup {"part"}, singlelist_ordered |-> NoPart \cup {"part"},
+              singlelist4 |-> NoPart \cup {"part"}, singlelist4_ordered |-> NoPart \cup {"part"},
+              singlelist_aon |-> NoPart, singlelist_aon_ordered |-> NoPart,
+              interval |-> NoPart \cup {"part"}, interval_aon |-> NoPart,
+              nested |-> NoPart \cup {"part"}, nested_aon |-> NoPart]
+HostNames == DOMAIN HostKinds
+\* a list host awards multiples of 1/grain of the alternative's credit (0: any fraction)
+HostGrain(h) == IF h \in {"singlelist", "singlelist_ordered", "interval"} THEN 2
+                ELSE IF h \in {"singlelist4", "singlelist4_ordered", "nested"} THEN 4 ELSE 0
+KindOf(v) == IF v.k = "raise" THEN v.e ELSE v.k
+KindsIn(alts) == {KindOf(ValAt(alts, p)) : p \in Positions(alts)}
+Realisable(h, alts) ==
+  /\ h \in HostNames
+  /\ KindsIn(alts) \subseteq HostKinds[h]
+  /\ HostGrain(h) > 0 => \A p \in Positions(alts) : LET v == ValAt(alts, p) IN
+                             v.k = "part" => (v.f[1] * HostGrain(h)) % v.f[2] = 0
+RealisableHosts(alts) == {h \in HostNames : Realisable(h, alts)}
+
 (* ---- author notations (docs/item_grader.md, "Specifying Answers").  `answers` is one item or a tuple of items; an
    item is a bare expect value (credit 1, no message) or a dictionary with `expect` and optional `grade_decimal` and
    `msg`; an expect entry is one value or a tuple of values.  Canon gives the alternatives a notation denotes.
@@ -168,6 +199,8 @@ LawSingle(alts, w) == Len(alts) = 1 /\ Len(alts[1].vals) = 1 /\ Raising(alts) = 
                         AllowedOut(alts, w) = {Res(Shown(Response(alts[1], alts[1].vals[1]), w))}
 \* every notation of the same alternatives denotes them (so the outcome cannot depend on how the author wrote them)
 LawNotation(alts, w) == \A n \in Notations(alts) : WellFormedNotation(n) /\ Canon(n) = alts
+\* the table-driven host realises every listing, so no case is ever without a binding
+LawAlwaysRealisable(alts, w) == "table" \in RealisableHosts(alts) /\ RealisableHosts(alts) \subseteq HostNames
 \* the implementation-shaped reference refines the property-level specification
 LawCodeRefines(alts, w) == CodeOut(alts, w) \in StrictOut(alts, w)
 LawCodeCalls(alts, w) == LET cc == CodeCalls(alts) IN
